@@ -9,6 +9,7 @@ import Drivers.MintD
 import Drivers.UbdD
 import Drivers.ReimbD
 import Drivers.WasmD
+import Drivers.OracleParamsD
 import Drivers.BlockhashD
 /-
   Chain driver: reads the trace of the real application (one JSON object per line),
@@ -1054,6 +1055,15 @@ partial def loop (hIn : IO.FS.Stream) (ds : DS) : IO DS := do
         let mut ds := { ds with h := J.intOf j "h" }
         for k in r.stats do ds := stat ds ("sit." ++ k)
         ds := { ds with stats := bump ds.stats (if J.has j "skipped" then "tx.reimb.skipped" else "tx.reimb.ok") 1 }
+        for (kind, props, name, detail) in r.findings do
+          ds ← finding ds kind props name detail
+        pure ds
+      | "oparams" => do
+        -- C08: the oracle's task parameters changed by the real parameter-change handler, then the real end-blocker (profile "oracleparams")
+        let r := OracleParamsD.check j
+        let mut ds := ds
+        for k in r.stats do ds := stat ds ("sit." ++ k)
+        ds := { ds with stats := bump ds.stats "tx.oracle.paramchange.ok" 1 }
         for (kind, props, name, detail) in r.findings do
           ds ← finding ds kind props name detail
         pure ds
